@@ -237,6 +237,7 @@ pxgstrf_scheduler(const int_t pnum, const int_t n, const int_t *etree,
 
     } /* if jcol != empty */
 
+    SLU_VERIF_EV(SLU_VEV_SCHED, pnum, jcol, (jcol != EMPTY ? *bcol : EMPTY), *cur_pan, pxgstrf_shared);
     *cur_pan = jcol;
 
 #if ( DEBUGlevel>=1 )
